@@ -253,6 +253,8 @@ def sentinel_status(pid, spec):
 
 
 def update_sentinels(cur):
+    if REPO != "/repo":        # mutation self-tests run against scratch trees: never baseline from those
+        return
     store = os.path.join(VERIF, "harness", "sentinels.json")
     known = json.load(open(store)) if os.path.exists(store) else {}
     known.update(cur)
